@@ -479,10 +479,14 @@ func (m *monitor) run() {
 		// R6: heart-beats
 		var lastTTL uint64
 		after := 0
+		hbSlow := false
 		seenAdvise := map[uint64]bool{}
 		for _, hb := range v.heartbeats {
 			req := hb.Req.Req.(*kvrpcpb.TxnHeartBeatRequest)
 			m.hit("R6-heartbeat")
+			if hb.Fate != simkit.Deliver {
+				hbSlow = true
+			}
 			first := !seenAdvise[req.AdviseLockTtl]
 			seenAdvise[req.AdviseLockTtl] = true
 			// the primary of a pessimistic transaction can change when its first lock call fails: judged
@@ -518,7 +522,11 @@ func (m *monitor) run() {
 				after++ // a new tick after the end (one may already have been past its TSO fetch)
 			}
 		}
-		if after > 1 {
+		// The keep-alive loop picks between "closed" and "tick" with Go's select: when both are ready at the end of the
+		// transaction one more tick may win. While every heart-beat is answered promptly that is at most one; a heart-beat
+		// that hangs in a fault lets ticks pile up behind it, and each return of the loop may lose the coin again -
+		// no bound can be stated then, and the rule is not applied (found by the thorough tier as an unstable result).
+		if after > 1 && !hbSlow {
 			m.fail("R6-heartbeat-after-end", sig, "txn %d: %d heart-beats were sent after Commit/Rollback had returned", ts, after)
 		}
 		// R7: commit ts exceeds every timestamp issued before Commit was called
